@@ -19,6 +19,7 @@ import (
 	m "verif/internal/model"
 	"verif/internal/pipeline"
 	"verif/internal/reduce"
+	"verif/internal/rt"
 	"verif/internal/stats"
 )
 
@@ -51,8 +52,23 @@ func profile() gen.Profile {
 	return gen.Wide()
 }
 
-// TestCompile is the main campaign.
-func TestCompile(t *testing.T) {
+// TestCompile is the campaign over the profile named by VERIF_PROFILE (default: wide).
+func TestCompile(t *testing.T) { campaign(t, profile()) }
+
+// One campaign per generator profile, so that the driver can budget them separately.
+func TestCompileRoutes(t *testing.T)   { campaign(t, gen.Routes()) }
+func TestCompileViews(t *testing.T)    { campaign(t, gen.Views()) }
+func TestCompileRequest(t *testing.T)  { campaign(t, gen.Request()) }
+func TestCompileResponse(t *testing.T) { campaign(t, gen.Response()) }
+func TestCompileErrors(t *testing.T)   { campaign(t, gen.Errors()) }
+func TestCompileSecurity(t *testing.T) { campaign(t, gen.Security()) }
+func TestCompileWide(t *testing.T)     { campaign(t, gen.Wide()) }
+
+func campaign(t *testing.T, prof gen.Profile) {
+	if rt.ReplayDir() != "" {
+		replayDesign(t)
+		return
+	}
 	n := envInt("VERIF_CHECKS", 48)
 	seed := envInt("VERIF_SEED", 1)
 	sess, err := pipeline.NewSession("c01")
@@ -60,7 +76,6 @@ func TestCompile(t *testing.T) {
 		t.Fatalf("INCONCLUSIVE: %v", err)
 	}
 	defer sess.Close()
-	prof := profile()
 	prof.Avoid = gen.OpenQuirks()
 
 	outs := make([]*pipeline.Outcome, n)
@@ -106,7 +121,7 @@ func TestCompile(t *testing.T) {
 		fv := strings.Join(d.Features, ",")
 		nt := len(d.Features) >= 6 && !featSeen[fv]
 		featSeen[fv] = true
-		stats.CaseSample(fv, nt, map[string]any{"design": o.Run.Name, "features": d.Features, "services": len(d.Services), "types": len(d.Types), "files": o.Files, "outcome": firstLine(o.Describe())})
+		stats.CaseSample(prof.Name+"|"+fv, nt, map[string]any{"design": o.Run.Name, "features": d.Features, "services": len(d.Services), "types": len(d.Types), "files": o.Files, "outcome": firstLine(o.Describe())})
 	}
 	for _, r := range rejSamples {
 		stats.Note("rejected design: %s", r)
